@@ -237,7 +237,11 @@ Walk(tree) == Paths(tree, <<>>, TRUE)
 (* since Walk is in ascending path order this is a suffix of it.  SeekPos = its first index.   *)
 WalkFrom(tree, start) == LET k == BytesToNibbles(start) IN SelectSeq(Walk(tree), LAMBDA e : ~SeqLess(e[1], k))
 SeekPos(tree, start)  == Len(Walk(tree)) - Len(WalkFrom(tree, start)) + 1
-SeekAll(tree)         == [i \in KIdx |-> SeekPos(tree, KeyBytes[i])]
+\* SeekPos for every key of the universe (Walk evaluated once)
+SeekAll(tree)         == LET w == Walk(tree)
+                         IN [i \in KIdx |-> LET k == BytesToNibbles(KeyBytes[i])
+                                                ge == {j \in 1..Len(w) : ~SeqLess(w[j][1], k)}
+                                            IN IF ge = {} THEN Len(w) + 1 ELSE CHOOSE j \in ge : \A x \in ge : j <= x]
 
 \* nodes a Commit of a freshly built trie hands to the database = the standalone ones
 StoredPaths(tree) == LET w == Walk(tree) IN {w[i][1] : i \in {j \in 1..Len(w) : w[j][2] = "H"}}
